@@ -540,10 +540,10 @@ def cross_domain_batch(rng, props, ext):
 def gen_C04(chk):
     rng = chk.rng
     ws = worlds(chk, quick_names=["N02", "N05", "N06", "N07", "N09", "N16", "N21", "N22"],
-                n_random=cnt(chk, 5, 20))
+                n_random=cnt(chk, 5, 10))
     for nm, net in ws:
         props = net_props(net)
-        for j in range(cnt(chk, 18, 48)):
+        for j in range(cnt(chk, 18, 12)):
             ext = rng.random() < 0.6
             fs = [planted_batch, nested_batch, swapped_batch, cross_domain_batch, nested_batch, companion_batch][j % 6](rng, props, ext)
             if len(fs) < 1:
@@ -627,10 +627,10 @@ def replace_subtree(t, target, repl):
 
 def gen_C10(chk):
     rng = chk.rng
-    ws = worlds(chk, n_random=cnt(chk, 5, 20))
+    ws = worlds(chk, n_random=cnt(chk, 5, 10))
     for nm, net in ws:
         props = net_props(net)
-        for j in range(cnt(chk, 9, 30)):
+        for j in range(cnt(chk, 9, 12)):
             f = gen.random_formula(rng, rng.randint(3, 9), props, max_vars=2, w_hybrid=0.3)
             k = gen.quant_depth(f)
             closed = [s for s in gen.subtrees(f) if not gen.free_vars(s) and s[0] != "T" and s != f]
